@@ -1,40 +1,41 @@
 #!/usr/bin/env python3
 """tools/refactor_run.py <out-dir> <name> — a behaviour-preserving refactoring written by a sub-agent: check that it
-applies and that the test-suite passes with it, then apply it to /repo, run EVERY quick check, undo it, and record
-what the checks said in refactorings/<name>/ (patch.diff, meta.json with the verdicts).  Evidence files are restored."""
+applies and that the test-suite passes with it, then apply it to a SCRATCH COPY of /repo (tools/scratch.py), run
+EVERY quick check from a scratch copy of /verif against it, and record what the checks said in refactorings/<name>/
+(patch.diff, meta.json with the verdicts).  /repo, /verif/evidence and /verif/replay are never touched."""
 import json, os, shutil, subprocess, sys
+sys.path.insert(0, os.path.dirname(os.path.abspath(__file__)))
+import scratch
 out, name = sys.argv[1], sys.argv[2]
 os.chdir("/verif")
-if subprocess.run(["git", "-C", "/repo", "status", "--porcelain"], capture_output=True, text=True).stdout.strip():
-    print("repo not clean"); sys.exit(2)
-patch = os.path.join(out, "patch.diff")
-if subprocess.run(["git", "-C", "/repo", "apply", "--check", patch], capture_output=True).returncode != 0:
+patch = os.path.abspath(os.path.join(out, "patch.diff"))
+_cm = scratch.copies("refactor-" + name)
+VDIR, RDIR, ENV = _cm.__enter__()
+import atexit
+atexit.register(lambda: _cm.__exit__(None, None, None))
+if subprocess.run(["git", "-C", RDIR, "apply", "--check", patch], capture_output=True).returncode != 0:
     print(name, "patch does not apply"); sys.exit(1)
-subprocess.run(["git", "-C", "/repo", "apply", patch], check=True)
+subprocess.run(["git", "-C", RDIR, "apply", patch], check=True)
 res = {}
 try:
-    t = subprocess.run(["/verif/tools/repo_test.sh"], capture_output=True, text=True)
+    t = subprocess.run(["/verif/tools/repo_test.sh", RDIR], capture_output=True, text=True)
     tests_ok = "TESTS PASS" in t.stdout
     if tests_ok:
-        saved = {f: open("evidence/" + f, "rb").read() for f in os.listdir("evidence")}
         for i in range(1, 21):
             pid = "C%02d" % i
-            r = subprocess.run(["./check", pid, "quick"], capture_output=True, text=True)
+            r = subprocess.run([os.path.join(VDIR, "check"), pid, "quick"], capture_output=True, text=True, env=ENV)
             v = [l for l in r.stdout.split("\n") if l.startswith("VIOLATION")]
             if v:
                 res[pid] = ["no-failing-input-found" if l.endswith("no-failing-input-found") else "FAILING-INPUT" for l in v]
                 if any(x == "FAILING-INPUT" for x in res[pid]):
-                    rp = v[0].split("replay=")[1].split()[0]
+                    rp = os.path.join(VDIR, v[0].split("replay=")[1].split()[0])
                     try:
                         rj = json.load(open(rp))
                         res[pid].append(json.dumps(rj.get("oracle_failure"))[:300])
                     except Exception:
                         pass
-        for f, b in saved.items():
-            open("evidence/" + f, "wb").write(b)
 finally:
-    subprocess.run(["git", "-C", "/repo", "checkout", "--", "."], check=True)
-    subprocess.run(["git", "-C", "/repo", "clean", "-fdq"], check=False)
+    scratch.restore(RDIR)
 d = os.path.join("refactorings", name)
 os.makedirs(d, exist_ok=True)
 if os.path.abspath(patch) != os.path.abspath(os.path.join(d, "patch.diff")):
